@@ -5,7 +5,7 @@ CONSTANTS
   Cfgs <- Cfgs3
   Types <- TypesSweepNamed
   Pub = FALSE
-  MaxK = 4
+  MaxK = 3
   HiK = 7
   Steps = FALSE
 INVARIANT IntExact
